@@ -4,11 +4,14 @@
 (* macros Upgradeable / UpgradeableMigratable.                                                    *)
 EXTENDS Gates, TLC, Json
 
-CONSTANTS Flavour, Depth, Emit, BUG     \* BUG: "" | "migrate_keeps_flag" | "pause_twice"
+CONSTANTS Flavour,     \* "counter" | "upgrade" (v1 upgraded to v2) | "upgrade2" (v2 deployed directly, never upgraded)
+          Depth, Emit,
+          BUG          \* "" | "migrate_keeps_flag" | "pause_twice" | "migrate_when_unset"
 
-VARIABLES paused, counter, migrating, g, viol, hist
-vars == <<paused, counter, migrating, g, viol, hist>>
-View == <<paused, counter, migrating, g, viol, Len(hist)>>
+VARIABLES paused, counter, migrating, isV2, g, viol, hist
+vars == <<paused, counter, migrating, isV2, g, viol, hist>>
+View == <<paused, counter, migrating, isV2, g, viol, Len(hist)>>
+Upg == {"upgrade", "upgrade2"}
 Owner == "a"
 Callers == {"a", "b"}
 
@@ -18,30 +21,33 @@ ImplOk(o) ==
     [] o.op = "ereset"    -> Flavour = "counter" /\ paused
     [] o.op = "pause"     -> Flavour = "counter" /\ OwnerAuth(o) /\ (BUG = "pause_twice" \/ ~paused)
     [] o.op = "unpause"   -> Flavour = "counter" /\ OwnerAuth(o) /\ paused
-    [] o.op = "upgrade"   -> Flavour = "upgrade" /\ OwnerAuth(o)
-    [] o.op = "migrate"   -> Flavour = "upgrade" /\ OwnerAuth(o) /\ migrating
+    [] o.op = "upgrade"   -> Flavour \in Upg /\ OwnerAuth(o)
+    \* v1 has no migrate entry point: before the first upgrade the call cannot be dispatched
+    [] o.op = "migrate"   -> /\ Flavour \in Upg /\ (Flavour = "upgrade" => isV2) /\ OwnerAuth(o)
+                             /\ (migrating = "yes" \/ (BUG = "migrate_when_unset" /\ migrating = "unset"))
 ImplEffect(o) ==
-  CASE o.op = "increment" -> counter' = counter + 1 /\ UNCHANGED <<paused, migrating>>
-    [] o.op = "ereset"    -> counter' = 0 /\ UNCHANGED <<paused, migrating>>
-    [] o.op = "pause"     -> paused' = TRUE /\ UNCHANGED <<counter, migrating>>
-    [] o.op = "unpause"   -> paused' = FALSE /\ UNCHANGED <<counter, migrating>>
-    [] o.op = "upgrade"   -> migrating' = TRUE /\ UNCHANGED <<paused, counter>>
-    [] o.op = "migrate"   -> migrating' = (BUG = "migrate_keeps_flag") /\ UNCHANGED <<paused, counter>>
+  CASE o.op = "increment" -> counter' = counter + 1 /\ UNCHANGED <<paused, migrating, isV2>>
+    [] o.op = "ereset"    -> counter' = 0 /\ UNCHANGED <<paused, migrating, isV2>>
+    [] o.op = "pause"     -> paused' = TRUE /\ UNCHANGED <<counter, migrating, isV2>>
+    [] o.op = "unpause"   -> paused' = FALSE /\ UNCHANGED <<counter, migrating, isV2>>
+    [] o.op = "upgrade"   -> migrating' = "yes" /\ isV2' = TRUE /\ UNCHANGED <<paused, counter>>
+    [] o.op = "migrate"   -> /\ migrating' = (IF BUG = "migrate_keeps_flag" THEN migrating ELSE "no")
+                             /\ UNCHANGED <<paused, counter, isV2>>
 
 Ops == IF Flavour = "counter"
        THEN [op : {"increment", "ereset"}, caller : {"b"}, auth : {{}}]
             \cup [op : {"pause", "unpause"}, caller : Callers, auth : SUBSET Callers]
        ELSE [op : {"upgrade", "migrate"}, caller : Callers, auth : SUBSET Callers]
 
-Init == /\ paused = FALSE /\ counter = 0 /\ migrating = FALSE
+Init == /\ paused = FALSE /\ counter = 0 /\ migrating = "unset" /\ isV2 = (Flavour = "upgrade2")
         /\ g = GInit(Flavour, Owner, [paused |-> FALSE, pending |-> FALSE])
         /\ viol = {} /\ hist = <<>>
 Step(o) ==
   LET ok == ImplOk(o)
       ev == [op |-> o, res |-> IF ok THEN "ok" ELSE "fail",
              ret |-> IF ok /\ o.op = "increment" THEN counter' ELSE 0,
-             obs |-> [paused |-> paused', pending |-> migrating']]
-  IN /\ IF ok THEN ImplEffect(o) ELSE UNCHANGED <<paused, counter, migrating>>
+             obs |-> [paused |-> paused', pending |-> (migrating' = "yes")]]
+  IN /\ IF ok THEN ImplEffect(o) ELSE UNCHANGED <<paused, counter, migrating, isV2>>
      /\ g' = GNext(g, ev)
      /\ viol' = viol \cup {<<m, Key(m, g, ev)>> : m \in Failing(g, ev)}
      /\ hist' = Append(hist, o @@ [exp |-> ev.res])
@@ -49,5 +55,5 @@ Next == Len(hist) < Depth /\ \E o \in Ops : Step(o)
 Bound == Len(hist) <= Depth
 EmitReplay == Emit => PrintT(<<"REPLAY", ToJson(hist')>>)
 NoViolation == viol = {}
-Refines == g.paused = paused /\ g.pending = migrating /\ g.counter = counter
+Refines == g.paused = paused /\ g.pending = (migrating = "yes") /\ g.counter = counter
 =============================================================================
